@@ -594,6 +594,14 @@ pub fn run(cfg: &Cfg) -> Report {
     ("rescale", D::new(false, "1234567890123456789012345678901234", 0), None, 2),
     ("rescale", D::new(false, &nines(34), -1), None, 0),
     ("rescale", D::new(false, "0", 0), None, -3),
+    // the upper end of the specified range of scales: 6176 fraction digits (values below 1E-6142 fit)
+    ("rescale", D::new(false, "0", 0), None, 6176),
+    ("rescale", D::new(false, "1", -6176), None, 6176),
+    ("rescale", D::new(true, "123", -6176), None, 6176),
+    ("rescale", D::new(false, "5", -6170), None, 6176),
+    ("rescale", D::new(false, "15", -6176), None, 6175),
+    ("rescale", D::new(false, "1", 6111), None, -6111),
+    ("rescale", D::new(false, "1", 6000), None, -6111),
     ("even", D::new(false, "1", 40), None, 0),
     ("even", D::new(false, "2", 34), None, 0),
     ("odd", D::new(false, "10", -1), None, 0),
@@ -602,6 +610,12 @@ pub fn run(cfg: &Cfg) -> Report {
     ("ceiling", D::new(true, "5", -1), None, 0),
     ("ceiling", D::new(true, "0", -1), None, 0),
     ("floor", D::new(true, "1", -100), None, 0),
+    // the quotient has more than 34 digits: it is rounded before its floor is taken
+    ("modulo", D::new(false, &nines(34), 0), Some(D::new(false, "2", 0)), 0),
+    ("modulo", D::new(false, "2999999999999999999999999999999999", 0), Some(D::new(false, "3", -1)), 0),
+    ("modulo", D::new(true, &nines(34), 0), Some(D::new(false, "2", 0)), 0),
+    ("modulo", D::new(false, "12", 0), Some(D::new(true, "5", 0)), 0),
+    ("modulo", D::new(true, "105", -1), Some(D::new(false, "32", -1)), 0),
     ("modulo", D::new(false, "1", 6111), Some(D::new(false, "3", -6176)), 0),
   ];
   let mk = |class: &'static str, op: &'static str, a: D, b: Option<D>, k: i32| -> Case {
@@ -629,12 +643,14 @@ pub fn run(cfg: &Cfg) -> Report {
         let x = if rng.chance(1, 2) { a.clone() } else { b.clone() };
         let k = if op == "rescale" {
           match rng.below(4) {
-            0 => rng.range(-6111, 6175) as i32,
+            0 => rng.range(-6111, 6176) as i32,
+            // the two ends of the specified range (DMN 1.3 table 75: scale in [-6111 .. 6176])
+            1 if rng.chance(1, 8) => if rng.chance(1, 2) { 6176 } else { -6111 },
             1 => -(x.exp) + rng.range(-3, 3) as i32,
             2 => -(x.exp + x.coeff.len() as i32) + rng.range(-2, 2) as i32,
             _ => rng.range(-5, 40) as i32,
           }
-          .clamp(-6111, 6175)
+          .clamp(-6111, 6176)
         } else {
           0
         };
@@ -665,6 +681,9 @@ pub fn run(cfg: &Cfg) -> Report {
   let answers = model.ask_batch(&reqs);
   let mut judge_queue: Vec<(usize, String)> = vec![];
   let mut judgev_queue: Vec<(usize, String)> = vec![];
+  // modulo: every answer of the implementation (FeelNumber `%` and FEEL `modulo`) is judged against the
+  // mathematical modulo (the model mirrors the code's formula, which rounds every step): (case, layer, answer, input)
+  let mut modulo_obs: Vec<(usize, &'static str, String, String)> = vec![];
   // cases whose sequential answer agrees with the model and its specification verdict: the expectations of the
   // `threads` family below
   let mut settled: Vec<TItem> = vec![];
@@ -727,6 +746,9 @@ pub fn run(cfg: &Cfg) -> Report {
     // ---- layer 2: FeelNumber
     match impl_feelnumber(c.op, &c.a, c.b.as_ref(), c.k) {
       Ok(i_f) => {
+        if c.op == "modulo" && !c.b.as_ref().map(|b| b.is_zero()).unwrap_or(true) {
+          modulo_obs.push((idx, "FeelNumber %", i_f.clone(), format!("FeelNumber {}", c.req)));
+        }
         if i_f != "na" && i_f != m_f {
           rep.disagree(Kind::ImplVsModel, c.op, &format!("FeelNumber {} differs from the model FNum.{}", c.op, c.op), &input, &i_f, &m_f);
           if JUDGED_OPS.contains(&c.op) {
@@ -765,6 +787,20 @@ pub fn run(cfg: &Cfg) -> Report {
             if shown != expected {
               rep.disagree(Kind::ImplVsModel, c.op, &format!("FEEL {} differs from the model FNum.{}", c.op, c.op), &format!("{} {}", expr, input), &shown, &expected);
             }
+            let feel_input = format!("{} with a={} b={}", expr, c.a.to_sci_input(), c.b.as_ref().map(|b| b.to_sci_input()).unwrap_or_default());
+            // modulo: the specification is the mathematical modulo, judged below
+            if c.op == "modulo" && !c.b.as_ref().map(|b| b.is_zero()).unwrap_or(true) {
+              if shown == "null" {
+                rep.disagree(Kind::ImplVsSpec, c.op, "FEEL modulo() with a divisor that is not zero is null", &feel_input, &shown, "a number");
+              } else {
+                modulo_obs.push((idx, "FEEL modulo()", shown.clone(), feel_input.clone()));
+              }
+            }
+            // decimal: every scale of the specified range -6111 .. 6176 is in the domain (DMN 1.3 table 75); the generated
+            // scales lie inside it, so null is wrong whenever the rescaled value exists (the specification's answer is finite)
+            if c.op == "rescale" && shown == "null" && (-6111..=6176).contains(&c.k) && m_raw.starts_with("(n ") {
+              rep.disagree(Kind::ImplVsSpec, c.op, "FEEL decimal() is null for a scale inside the specified range -6111..6176", &feel_input, &shown, &m_raw);
+            }
           }
           Ok(Err(e)) => rep.disagree(Kind::ImplVsSpec, c.op, &format!("FEEL {} fails to evaluate", c.op), &expr, &e, &m_f),
           Err(p) => rep.disagree(Kind::ImplVsSpec, c.op, &format!("FEEL {} panics", c.op), &format!("{} {}", expr, input), &p, &m_f),
@@ -799,6 +835,41 @@ pub fn run(cfg: &Cfg) -> Report {
     let jr = model.ask(&jreq);
     if jr.contains("false") {
       rep.disagree(Kind::ImplVsSpec, c.op, &spec_signature(c.op, &c.a), &c.req, &i_raw, "the specification of the operation");
+    }
+  }
+
+  // modulo against the mathematical modulo `a - b*floor(a/b)`, computed exactly and rounded once (driver: ModuloSpec
+  // through judgev, on some representation of the reduced answer). Signatures by branch: `modexact` says whether every
+  // intermediate step of the code's formula is exact for these operands (then the model is proved to meet the specification).
+  {
+    // FEEL-level observations first (their input is a FEEL expression), in case order
+    modulo_obs.sort_by_key(|o| (o.1 != "FEEL modulo()", o.0));
+    let mut reqs: Vec<String> = vec![];
+    for (idx, _, ans, _) in &modulo_obs {
+      let c = &cases[*idx];
+      let r = if ans.starts_with("(n ") || ans.starts_with("(inf") { ans.clone() } else { "(nan)".to_string() };
+      reqs.push(format!("(c02 judgev modulo {} {} {})", c.a.wire(), c.b.as_ref().unwrap().wire(), r));
+      reqs.push(format!("(c02 modexact {} {})", c.a.wire(), c.b.as_ref().unwrap().wire()));
+    }
+    let answers = model.ask_batch(&reqs);
+    for (i, (_, layer, ans, input)) in modulo_obs.iter().enumerate() {
+      let verdict = &answers[2 * i];
+      let exact = answers[2 * i + 1].contains("true");
+      rep.hit(if exact { "modulo:steps-exact" } else { "modulo:steps-rounded" });
+      if verdict.contains("true") {
+        continue;
+      }
+      if !verdict.contains("false") {
+        rep.disagree(Kind::ImplVsModel, "modulo", "driver-error", input, ans, verdict);
+        continue;
+      }
+      let sig = if exact {
+        "modulo differs from the mathematical modulo although every step of dividend - divisor * floor(dividend / divisor) is exact"
+      } else {
+        "modulo differs from the mathematical modulo: the quotient is rounded before its floor is taken, or the product is rounded"
+      };
+      rep.hit(&format!("modulo-violates-spec:{}", layer));
+      rep.disagree(Kind::ImplVsSpec, "modulo", sig, input, ans, "dividend - divisor * floor(dividend / divisor), computed exactly and rounded once to 34 digits");
     }
   }
 
@@ -1214,6 +1285,54 @@ pub fn run(cfg: &Cfg) -> Report {
         let sig = if e.starts_with("odd") { "odd() is false for an odd integer written with fraction zeros (is_integer tests exponent = 0)" } else { "even() is false for even integers of 2E+34 and above (remainder: Division impossible)" };
         rep.disagree(Kind::ImplVsSpec, "odd_even_spec", sig, e, &got, want);
       }
+    }
+  }
+  // the range of scales of decimal(): [-6111 .. 6176] (DMN 1.3 table 75), both ends included, null outside
+  for (e, want) in [
+    ("decimal(0, 6176)", "(n false 0 0)"),
+    ("decimal(10 ** -6176, 6176)", "(n false 1 -6176)"),
+    ("decimal(-3 * 10 ** -6170, 6176)", "(n true 3 -6170)"),
+    ("decimal(10 ** 6000, -6111)", "(n false 0 0)"),
+    ("decimal(0, 6177)", "null"),
+    ("decimal(1, 6177)", "null"),
+    ("decimal(0, -6112)", "null"),
+    ("decimal(1, 100000)", "null"),
+  ] {
+    rep.case(&format!("feel {}", e), true);
+    match guarded(|| feel_eval(&[], e)) {
+      Ok(Ok(v)) => {
+        let got = value_show(&v);
+        if got != want {
+          let sig = if want == "null" { "FEEL decimal() accepts a scale outside the specified range -6111..6176" } else { "FEEL decimal() is null for a scale inside the specified range -6111..6176" };
+          rep.disagree(Kind::ImplVsSpec, "rescale", sig, e, &got, want);
+        }
+      }
+      Ok(Err(err)) => rep.disagree(Kind::ImplVsSpec, "rescale", "FEEL decimal() fails to evaluate", e, &err, want),
+      Err(p) => rep.disagree(Kind::ImplVsSpec, "rescale", "FEEL decimal() panics", e, &p, want),
+    }
+  }
+  // integer powers of -1 are 1 or -1 exactly, whatever the size of the exponent (decNumberPower refuses a negative
+  // base when the integer exponent has more than 9 digits)
+  for (e, want) in [
+    ("(-1) ** 999999999", "(n true 1 0)"),
+    ("(-1) ** 1000000000", "(n false 1 0)"),
+    ("(-1) ** 1000000001", "(n true 1 0)"),
+    ("(-1.0) ** 4000000000", "(n false 1 0)"),
+    ("(-1) ** (10 ** 40)", "(n false 1 0)"),
+    ("(-1) ** -1000000001", "(n true 1 0)"),
+    ("1 ** (10 ** 40)", "(n false 1 0)"),
+  ] {
+    rep.case(&format!("feel {}", e), true);
+    rep.hit("feel-chain:power of -1");
+    match guarded(|| feel_eval(&[], e)) {
+      Ok(Ok(v)) => {
+        let got = value_show(&v);
+        if got != want {
+          rep.disagree(Kind::ImplVsSpec, "pow", "an integer power of -1 is not 1 or -1 (negative base, integer exponent of more than 9 digits)", e, &got, want);
+        }
+      }
+      Ok(Err(err)) => rep.disagree(Kind::ImplVsSpec, "pow", "FEEL ** does not evaluate", e, &err, want),
+      Err(p) => rep.disagree(Kind::ImplVsSpec, "pow", "FEEL ** panics", e, &p, want),
     }
   }
   // ---------------------------------------------------------------- the same operations from many threads at once
